@@ -2468,14 +2468,17 @@ fn case_c13(seed: u64, idx: usize, cache: &TableCache, out: &mut String, st: &mu
     }
     if n_tiny > 0 {
         // (earlier configurations are requested again while the cache grows: the first one ever
-        // built, the first tiny one, and those 255..257 and 511..513 builds back)
-        let first = seq[0];
+        // built, the first tiny one, and those around 256, 512 and 1024 builds back)
+        // (the first configuration that actually entered the cache: the first one that builds)
+        let first = *seq.iter().find(|c| uncached[**c].is_some()).unwrap_or(&seq[0]);
         for i in first_tiny..cfgs.len() {
             seq.push(i);
             if (i - first_tiny) % 37 == 36 {
                 seq.push(first);
                 seq.push(first_tiny);
-                for back in [1usize, 255, 256, 257, 511, 512, 513] {
+                // (windows around 256, 512 and 1024 builds back: the exact distance at which a bounded
+                // cache would have dropped an entry depends on how many entries preceded the tiny ones)
+                for back in std::iter::once(1usize).chain(249..=263).chain(505..=519).chain(1017..=1031) {
                     if i >= first_tiny + back {
                         seq.push(i - back);
                     }
@@ -2483,7 +2486,7 @@ fn case_c13(seed: u64, idx: usize, cache: &TableCache, out: &mut String, st: &mu
             }
         }
         // failing builds after the cache has grown, twice each, then earlier ones again
-        seq.extend([first_tiny - 2, first_tiny - 2, first_tiny - 1, first_tiny - 1, 0, 2, first_tiny, first_tiny + 5]);
+        seq.extend([first_tiny - 4, first_tiny - 4, first_tiny - 3, first_tiny - 3, first_tiny - 2, first_tiny - 2, first_tiny - 1, 0, 2, first_tiny, first_tiny + 5]);
         // every configuration of this case once more, starting with the very first one built
         // (this case runs before all others: it is the first configuration the process built)
         seq.push(seq[0]);
